@@ -84,6 +84,13 @@ struct World {
     pending_w: BTreeMap<usize, Vec<usize>>, // key id -> value ids of spawned, not yet associated writes
     paid: usize,
     seed: [u8; 16],
+    cut_sel: usize,
+}
+
+/// Which prefix of the ciphertext survives a torn write (selected per run).
+fn torn_len(full: usize, sel: usize) -> usize {
+    let cands = [0usize, 1, 2, 15, 16, 17, full / 2, full.saturating_sub(17), full.saturating_sub(16), full.saturating_sub(1)];
+    if sel < cands.len() { cands[sel].min(full.saturating_sub(1)) } else { (sel - cands.len()) % full.max(1) }
 }
 
 fn storage_cfg(dir: &Path, c: &Cfg, seed: [u8; 16]) -> ant_networking::verif_hooks::NodeRecordStoreConfig {
@@ -124,7 +131,7 @@ impl World {
         let store = NodeRecordStore::with_config(me, storage_cfg(&dir, &cfg, seed), ev_tx.clone(), cmd_tx.clone());
         let mut w = World {
             cfg, me, dir, store, cmd_rx, cmd_tx, ev_tx, _ev_rx: ev_rx, keys, dists, filler_keys,
-            values: HashMap::new(), parked: vec![], notes: vec![], pending_w: BTreeMap::new(), paid: 0, seed,
+            values: HashMap::new(), parked: vec![], notes: vec![], pending_w: BTreeMap::new(), paid: 0, seed, cut_sel: 0,
         };
         w.settle_constructor_flush(gates).await;
         w
@@ -361,6 +368,42 @@ async fn step(w: &mut World, gates: &mut mpsc::UnboundedReceiver<GateEvent>, t: 
             let (qm, _) = vh::store_quoting_metrics(&w.store, &key, None);
             out = json!({"close": qm.close_records_stored as i64 - w.cfg.filler as i64, "max": qm.max_records as i64 - w.cfg.filler as i64, "pay": qm.received_payment_count});
         }
+        "Restart" => {
+            // crash now: parked bodies never run, undelivered notes are lost. If tk != 0 the write of tk that
+            // was in progress leaves a torn file: the real body writes the full ciphertext, of which only a
+            // prefix is kept.
+            let tk = uz(&s["k"]);
+            let mut cut_info = json!({"full": 0, "kept": 0});
+            if tk != 0 {
+                let pos = w.parked.iter().position(|p| p.id.kind != "F" && p.id.k == tk);
+                match pos {
+                    Some(pos) if w.parked[pos].id.kind == "W" => {
+                        w.release(pos, gates).await;
+                        let path = w.file_of(tk);
+                        let full = std::fs::read(&path).unwrap_or_default();
+                        let cut = torn_len(full.len(), w.cut_sel);
+                        std::fs::write(&path, &full[..cut]).expect("torn write");
+                        cut_info = json!({"full": full.len(), "kept": cut});
+                    }
+                    _ => { res = json!("NoSuchTask"); extra = json!({"t": {"kind":"W","k":tk,"v":0}}); }
+                }
+            }
+            if res == json!("Ok") {
+                for p in w.parked.drain(..) { drop(p.release); }
+                w.notes.clear();
+                w.pending_w.clear();
+                while w.cmd_rx.try_recv().is_ok() {}
+                let (cmd_tx, cmd_rx) = mpsc::channel(10_000);
+                let (ev_tx, ev_rx) = mpsc::channel(10_000);
+                let store = NodeRecordStore::with_config(w.me, storage_cfg(&w.dir, &w.cfg, w.seed), ev_tx.clone(), cmd_tx.clone());
+                w.store = store;
+                w.cmd_rx = cmd_rx; w.cmd_tx = cmd_tx; w.ev_tx = ev_tx; w._ev_rx = ev_rx;
+                w.paid = w.store.verif_received_payment_count();
+                // bodies of the crashed process are parked for ever; their late gate events are ignored
+                w.settle_constructor_flush(gates).await;
+                extra = json!({"cut": cut_info});
+            }
+        }
         other => panic!("unknown step {other}"),
     }
     if res == json!("NoSuchTask") || res == json!("NoSuchNote") {
@@ -432,6 +475,8 @@ async fn run() {
     let nv: usize = arg("--nv").and_then(|s| s.parse().ok()).unwrap_or(2);
     let max_records: usize = arg("--max").and_then(|s| s.parse().ok()).unwrap_or(2);
     let cache_size: usize = arg("--cache").and_then(|s| s.parse().ok()).unwrap_or(1);
+    let cut_mod: usize = arg("--cuts").and_then(|s| s.parse().ok()).unwrap_or(10);
+    let crash_pct: u32 = arg("--crash").and_then(|s| s.parse().ok()).unwrap_or(0);
     let mut gates = vh::install_gate_controller();
     let mut t = Trace::create(&out);
     let mut run_no = 0u64;
@@ -441,6 +486,7 @@ async fn run() {
             let mut rng = StdRng::seed_from_u64(seed.wrapping_mul(1_000_003).wrapping_add(run_no));
             let dir = work.join(format!("run-{run_no}"));
             let mut w = World::new(&mut rng, dir.clone(), Cfg { nk, max_records, cache_size, filler: 0 }, &mut gates).await;
+            w.cut_sel = (run_no as usize + seed as usize) % cut_mod;
             t.emit(json!({"ev":"Reset","run":run_no,"src":"tlc","nk":nk,"max":max_records,"cache":cache_size,"threshold":99}));
             for s in scn.as_array().expect("scenario array") {
                 if s["ev"] == "Prefill" {
@@ -462,7 +508,16 @@ async fn run() {
         let dir = work.join(format!("run-{run_no}"));
         let mut w = World::new(&mut rng, dir.clone(), Cfg { nk, max_records, cache_size, filler: 0 }, &mut gates).await;
         t.emit(json!({"ev":"Reset","run":run_no,"src":"random","nk":nk,"max":max_records,"cache":cache_size,"threshold":99}));
-        for _ in 0..steps {
+        w.cut_sel = (run_no as usize + seed as usize) % cut_mod;
+        let crash_at = if rng.gen_range(0..100) < crash_pct { rng.gen_range(steps / 3..steps) } else { usize::MAX };
+        for n in 0..steps {
+            if n == crash_at {
+                // crash with or without a torn write (of a body that could be running)
+                let runnable_w: Vec<usize> = (1..=w.cfg.nk).filter(|&k| w.parked.iter().find(|p| p.id.kind != "F" && p.id.k == k).map(|p| p.id.kind == "W").unwrap_or(false)).collect();
+                let tk = if !runnable_w.is_empty() && rng.gen_bool(0.6) { *runnable_w.choose(&mut rng).expect("w") } else { 0 };
+                step(&mut w, &mut gates, &mut t, &json!({"ev":"Restart","k":tk}), "random").await;
+                continue;
+            }
             let s0 = random_step(&w, &mut rng, nv);
             let s = earliest_same_file(&w, &s0);
             step(&mut w, &mut gates, &mut t, &s, "random").await;
